@@ -19,6 +19,7 @@ pub enum Step {
     Drop(String), // "reset" | "eof"
     Gone,
     Bookmark,
+    ListFail,
 }
 
 impl Step {
@@ -32,6 +33,7 @@ impl Step {
             "drop" => Step::Drop(n),
             "gone" => Step::Gone,
             "bookmark" => Step::Bookmark,
+            "listfail" => Step::ListFail,
             other => panic!("unknown step kind {other}"),
         }
     }
@@ -54,6 +56,8 @@ struct State {
     list_open: bool,         // the history has answered the outstanding LIST: repeats of it are answered at once
     lists_since_open: usize, // LIST answers since then
     lists_served: usize,
+    list_fail_once: bool, // the history says: the outstanding LIST request is answered with a server error
+    list_fails: usize,
     gone_next: bool,
     watch_gen: u64,
     watch_alive: bool,
@@ -111,7 +115,7 @@ impl Mock {
         let l = TcpListener::bind("127.0.0.1:0").await.expect("bind loopback");
         let port = l.local_addr().unwrap().port();
         let st = Arc::new(Mutex::new(State {
-            ns: ns.to_string(), rv: 100, objs: BTreeMap::new(), log: vec![], list_waiting: 0, list_open: false, lists_since_open: 0, lists_served: 0,
+            ns: ns.to_string(), rv: 100, objs: BTreeMap::new(), log: vec![], list_waiting: 0, list_open: false, lists_since_open: 0, lists_served: 0, list_fail_once: false, list_fails: 0,
             gone_next: false, watch_gen: 0, watch_alive: false, watch_delivered: 0, cmd: None, cmds_done: 0, t0: Instant::now(), reqs: vec![],
         }));
         let st2 = st.clone();
@@ -201,6 +205,15 @@ impl Mock {
                     s.lists_served
                 };
                 self.wait("the LIST to be answered", limit, |s| s.lists_served > served).await
+            }
+            Step::ListFail => {
+                self.await_list_request(limit).await?;
+                let before = {
+                    let mut s = self.st.lock().unwrap();
+                    s.list_fail_once = true;
+                    s.list_fails
+                };
+                self.wait("the LIST to be answered with an error", limit, |s| s.list_fails > before).await
             }
             Step::Drop(how) => {
                 self.wait("an established watch", limit, |s| s.watch_alive && s.cmd.is_none()).await?;
@@ -391,9 +404,17 @@ async fn serve(mut s: TcpStream, st: Arc<Mutex<State>>) {
             let mut g = st.lock().unwrap();
             g.list_waiting += 1;
         }
+        let mut fail = false;
         let body = loop {
             {
                 let mut g = st.lock().unwrap();
+                if g.list_fail_once {
+                    g.list_fail_once = false;
+                    g.list_waiting -= 1;
+                    fail = true;
+                    break json!({"kind": "Status", "apiVersion": "v1", "metadata": {}, "status": "Failure", "message": "etcdserver: request timed out",
+                                 "reason": "InternalError", "code": 500}).to_string();
+                }
                 if g.list_open {
                     g.list_waiting -= 1;
                     g.lists_since_open += 1;
@@ -407,6 +428,14 @@ async fn serve(mut s: TcpStream, st: Arc<Mutex<State>>) {
                 return;
             }
         };
+        if fail {
+            let r = s.write_all(format!("HTTP/1.1 500 Internal Server Error\r\nContent-Type: application/json\r\nContent-Length: {}\r\n\r\n{}", body.len(), body).as_bytes()).await;
+            st.lock().unwrap().list_fails += 1;
+            if r.is_err() {
+                return;
+            }
+            continue;
+        }
         let r = s.write_all(format!("HTTP/1.1 200 OK\r\nContent-Type: application/json\r\nContent-Length: {}\r\n\r\n{}", body.len(), body).as_bytes()).await;
         st.lock().unwrap().lists_served += 1;
         if r.is_err() {
